@@ -23,7 +23,9 @@ import (
 // Model "settleapp" (C01), keeper-level stream: histories of order creation, MsgMarketSettle,
 // MsgFillBids, MsgFillAsks on a real app (real bank, hold, exchange keepers and msg server), with a
 // dump of the balances of every involved account, the market account and the fee collector and of the
-// open orders after every op.  Line formats: lean/PvModel/SettleAppDriver.lean.
+// open orders and of what the hold module has on hold for every account after every op.  The
+// messages go through the request's ValidateBasic and then the msg server, as runTx does.
+// Line formats: lean/PvModel/SettleAppDriver.lean.
 
 func init() {
 	drivers["settleapp"] = driveSettleApp
@@ -71,6 +73,10 @@ var sappErrExtra = []struct {
 	rx    *regexp.Regexp
 	class string
 }{
+	{regexp.MustCompile(`^no (ask|bid) order ids provided`), "noids"},
+	{regexp.MustCompile(`^invalid (ask|bid) order ids: cannot contain order id zero`), "zeroid"},
+	{regexp.MustCompile(`^duplicate (ask|bid) order ids provided`), "dupids"},
+	{regexp.MustCompile(`^order ids duplicated as both bid and ask`), "bothsides"},
 	{regexp.MustCompile(`^order \d+ (not found|is type|market id|has the same)`), "order"},
 	{regexp.MustCompile(`^total (assets|price) .* does not equal sum of`), "total"},
 	{regexp.MustCompile(`^settlement (resulted in unexpected partial order|unexpectedly resulted in all orders fully filled)`), "expectpartial"},
@@ -127,7 +133,21 @@ func (e *sappEnv) dump() string {
 		}
 		os = append(os, settleOrderStr(o))
 	}
-	return strings.Join(parts, ";") + " | " + JoinOr(os, "|")
+	var hs []string
+	for _, name := range e.accts {
+		addr := sappAddr(name)
+		var cs []string
+		for _, d := range sappDenoms {
+			h, err := sappApp.HoldKeeper.GetHoldCoin(e.ctx, addr, d)
+			if err != nil {
+				cs = append(cs, "err"+d)
+			} else if !h.Amount.IsZero() {
+				cs = append(cs, h.Amount.String()+d)
+			}
+		}
+		hs = append(hs, name+"="+JoinOr(cs, ","))
+	}
+	return strings.Join(parts, ";") + " | " + JoinOr(os, "|") + " | " + strings.Join(hs, ";")
 }
 
 // run executes f on a cached context that is written only on success (what runTx gives a message).
@@ -244,6 +264,9 @@ func (e *sappEnv) exec(op string) string {
 				AskOrderIds: sappParseIDs(settleKV(ws, "asks")), BidOrderIds: sappParseIDs(settleKV(ws, "bids")),
 				ExpectPartial: settleKV(ws, "partial") == "1",
 			}
+			if err := req.ValidateBasic(); err != nil {
+				return "", err
+			}
 			_, err := e.msg.MarketSettle(ctx, req)
 			return "ok", err
 		})
@@ -263,6 +286,9 @@ func (e *sappEnv) exec(op string) string {
 				c := fee[0]
 				req.SellerSettlementFlatFee = &c
 			}
+			if err = req.ValidateBasic(); err != nil {
+				return "", err
+			}
 			_, err = e.msg.FillBids(ctx, req)
 			return "ok", err
 		})
@@ -278,6 +304,9 @@ func (e *sappEnv) exec(op string) string {
 			}
 			req := &exchange.MsgFillAsksRequest{Buyer: sappAddr(ws[1]).String(), MarketId: sappMarketID,
 				TotalPrice: price, AskOrderIds: sappParseIDs(settleKV(ws, "ids")), BuyerSettlementFees: sdk.NewCoins(fees...)}
+			if err = req.ValidateBasic(); err != nil {
+				return "", err
+			}
 			_, err = e.msg.FillAsks(ctx, req)
 			return "ok", err
 		})
@@ -296,6 +325,7 @@ type sappGen struct {
 	u    *big.Int // asset unit
 	pu   *big.Int // unit price
 	open map[uint64]*settleGenOrder
+	rest []uint64 // resting orders: open, owned by the usual accounts, never offered for settlement
 }
 
 func (g *sappGen) emit(op string) string {
@@ -351,9 +381,8 @@ func (g *sappGen) create(ask bool, owner string, assets, price *big.Int, partial
 		p = "1"
 	}
 	fees := g.fees(assets, ask)
-	res := g.emit(fmt.Sprintf("%s %s %sapple %susd %s %s", k, owner, assets, price, fees, p))
-	var id uint64
-	if _, err := fmt.Sscanf(res, "ok %d", &id); err != nil {
+	id := g.place(k, owner, assets, price, fees, p)
+	if id == 0 {
 		return 0
 	}
 	fm := map[string]*big.Int{}
@@ -365,6 +394,116 @@ func (g *sappGen) create(ask bool, owner string, assets, price *big.Int, partial
 	}
 	g.open[id] = &settleGenOrder{ask: ask, id: int(id), owner: owner, assets: assets, price: price, fees: fm, partial: partial}
 	return id
+}
+
+// place emits one order creation and returns the new order's id (0 if it was refused).
+func (g *sappGen) place(kind, owner string, assets, price *big.Int, fees, partial string) uint64 {
+	res := g.emit(fmt.Sprintf("%s %s %sapple %susd %s %s", kind, owner, assets, price, fees, partial))
+	var id uint64
+	if _, err := fmt.Sscanf(res, "ok %d", &id); err != nil {
+		return 0
+	}
+	return id
+}
+
+// resting gives some of the accounts other open orders (large, with fees in several denoms) that no
+// request of the history names: their funds stay on hold next to those of the orders being settled,
+// and the orders must come out of every message untouched.
+func (g *sappGen) resting() {
+	r := g.r
+	n := 1 + r.Intn(3)
+	for i := 0; i < n; i++ {
+		a := bigMul(g.u, int64(40+r.Intn(40)))
+		price := new(big.Int).Mul(a, bigMul(g.pu, 2))
+		if r.Chance(50) {
+			fee := "-"
+			if r.Chance(85) {
+				fee = fmt.Sprintf("%s%s", bigMul(a, int64(2+r.Intn(2))), []string{"fig", "zed", "usd"}[r.Intn(3)])
+			}
+			if id := g.place("ask", Pick(r, []string{"S1", "S2", "S3", "X1"}), a, price, fee, "1"); id != 0 {
+				g.rest = append(g.rest, id)
+				g.out.Count("app:resting:ask")
+			}
+		} else {
+			var fs []string
+			for _, d := range []string{"fig", "usd", "zed"} {
+				if r.Chance(85) {
+					fs = append(fs, fmt.Sprintf("%s%s", bigMul(a, int64(2+r.Intn(2))), d))
+				}
+			}
+			if id := g.place("bid", Pick(r, []string{"B1", "B2", "B3", "X1"}), a, price, JoinOr(fs, ","), "1"); id != 0 {
+				g.rest = append(g.rest, id)
+				g.out.Count("app:resting:bid")
+			}
+		}
+	}
+}
+
+// backed says whether the owner of the order has, next to the order's own hold, at least as much
+// again on hold in every denom of it (so that releasing the order's hold twice would not fail).
+func (g *sappGen) backed(id uint64) bool {
+	o, err := sappApp.ExchangeKeeper.GetOrder(g.e.ctx, id)
+	if err != nil || o == nil {
+		return false
+	}
+	owner, err := sdk.AccAddressFromBech32(o.GetOwner())
+	if err != nil {
+		return false
+	}
+	for _, c := range o.GetHoldAmount() {
+		h, err := sappApp.HoldKeeper.GetHoldCoin(g.e.ctx, owner, c.Denom)
+		if err != nil || h.Amount.LT(c.Amount.MulRaw(2)) {
+			return false
+		}
+	}
+	return true
+}
+
+// repeat names one order of the id list once or twice more (next to its first mention, at the front
+// or at the end), preferably an order whose owner has other funds on hold.  It returns the new list,
+// the repeated id and how often it was added.
+func (g *sappGen) repeat(ids []uint64) ([]uint64, uint64, int) {
+	r := g.r
+	var cands []uint64
+	for _, id := range ids {
+		if g.backed(id) {
+			cands = append(cands, id)
+		}
+	}
+	var victim uint64
+	if len(cands) > 0 && r.Chance(85) {
+		victim = Pick(r, cands)
+		g.out.Count("app:repeat:backed")
+	} else {
+		victim = Pick(r, ids)
+		g.out.Count("app:repeat:any")
+	}
+	times := 1
+	if r.Chance(20) {
+		times = 2
+	}
+	rv := append([]uint64{}, ids...)
+	for t := 0; t < times; t++ {
+		at := 0
+		switch k := r.Intn(100); {
+		case k < 40: // right after its first mention
+			for i, id := range rv {
+				if id == victim {
+					at = i + 1
+					break
+				}
+			}
+			g.out.Count("app:repeat:adjacent")
+		case k < 70:
+			at = len(rv)
+			g.out.Count("app:repeat:end")
+		default:
+			g.out.Count("app:repeat:front")
+		}
+		rv = append(rv[:at], append([]uint64{victim}, rv[at:]...)...)
+	}
+	g.out.Count(fmt.Sprintf("app:repeat:len:%d", min(len(rv), 5)))
+	return rv, victim, times
 }
 
 func (g *sappGen) refresh() {
@@ -476,15 +615,62 @@ func (g *sappGen) round() {
 	if len(askIDs) == 0 || len(bidIDs) == 0 {
 		return
 	}
+	// a request may name an order more than once (the stated totals and, for a market settlement,
+	// the other side's orders are what they would be if that were two orders)
+	repeat := r.Chance(12)
 	switch k := r.Intn(100); {
 	case k < 72:
+		if repeat {
+			if r.Chance(50) {
+				var v uint64
+				var times int
+				bidIDs, v, times = g.repeat(bidIDs)
+				a := bigMul(g.open[v].assets, int64(times))
+				if id := g.create(true, owner(true, 0), a, new(big.Int).Mul(a, g.pu), false); id != 0 {
+					askIDs = append([]uint64{id}, askIDs...)
+				}
+				g.out.Count("app:repeat:settle-bid")
+			} else {
+				var v uint64
+				var times int
+				askIDs, v, times = g.repeat(askIDs)
+				a := bigMul(g.open[v].assets, int64(times))
+				pb := new(big.Int).Add(g.pu, big.NewInt(premium))
+				if id := g.create(false, owner(false, 0), a, new(big.Int).Mul(a, pb), false); id != 0 {
+					bidIDs = append([]uint64{id}, bidIDs...)
+				}
+				g.out.Count("app:repeat:settle-ask")
+			}
+		}
 		g.settle(askIDs, bidIDs)
 	case k < 86:
+		if repeat {
+			bidIDs, _, _ = g.repeat(bidIDs)
+			g.out.Count("app:repeat:fillbids")
+		}
 		g.fillBids(bidIDs)
 	default:
+		if repeat {
+			askIDs, _, _ = g.repeat(askIDs)
+			g.out.Count("app:repeat:fillasks")
+		}
 		g.fillAsks(askIDs)
 	}
 	g.refresh()
+}
+
+// malformIDs: a minority of id lists is empty or contains the id zero.
+func (g *sappGen) malformIDs(ids []uint64) []uint64 {
+	switch k := g.r.Intn(100); {
+	case k < 1:
+		g.out.Count("app:malformed:no-ids")
+		return nil
+	case k < 3:
+		g.out.Count("app:malformed:zero-id")
+		at := g.r.Intn(len(ids) + 1)
+		return append(append(append([]uint64{}, ids[:at]...), 0), ids[at:]...)
+	}
+	return ids
 }
 
 func (g *sappGen) settle(askIDs, bidIDs []uint64) {
@@ -494,7 +680,15 @@ func (g *sappGen) settle(askIDs, bidIDs []uint64) {
 		g.out.Count("app:malformed:unknown-order")
 	}
 	if r.Chance(3) && len(bidIDs) > 0 {
-		askIDs = append(askIDs, bidIDs[0])
+		// a bid among the asks: one of this request's bids, or (if there is one) a resting bid
+		wrong := bidIDs[0]
+		for _, id := range g.rest {
+			if o, _ := sappApp.ExchangeKeeper.GetOrder(g.e.ctx, id); o != nil && o.IsBidOrder() && r.Chance(60) {
+				wrong = id
+				break
+			}
+		}
+		askIDs = append(askIDs, wrong)
 		g.out.Count("app:malformed:bid-as-ask")
 	}
 	// steer the expect-partial flag with the real BuildSettlement (85% right)
@@ -524,6 +718,11 @@ func (g *sappGen) settle(askIDs, bidIDs []uint64) {
 	if partial {
 		p = "1"
 	}
+	if r.Chance(50) {
+		askIDs = g.malformIDs(askIDs)
+	} else {
+		bidIDs = g.malformIDs(bidIDs)
+	}
 	g.emit(fmt.Sprintf("settle asks=%s bids=%s partial=%s", sappIDs(askIDs), sappIDs(bidIDs), p))
 }
 
@@ -542,7 +741,7 @@ func (g *sappGen) fillBids(bidIDs []uint64) {
 	if r.Chance(50) {
 		fee = fmt.Sprintf("%d%s", 1+r.Intn(20), []string{"fig", "usd"}[r.Intn(2)])
 	}
-	g.emit(fmt.Sprintf("fillbids %s ids=%s assets=%sapple fee=%s", seller, sappIDs(bidIDs), total, fee))
+	g.emit(fmt.Sprintf("fillbids %s ids=%s assets=%sapple fee=%s", seller, sappIDs(g.malformIDs(bidIDs)), total, fee))
 }
 
 func (g *sappGen) fillAsks(askIDs []uint64) {
@@ -563,7 +762,7 @@ func (g *sappGen) fillAsks(askIDs []uint64) {
 			fees += fmt.Sprintf(",%dusd", 1+r.Intn(20))
 		}
 	}
-	g.emit(fmt.Sprintf("fillasks %s ids=%s price=%susd fees=%s", buyer, sappIDs(askIDs), total, fees))
+	g.emit(fmt.Sprintf("fillasks %s ids=%s price=%susd fees=%s", buyer, sappIDs(g.malformIDs(askIDs)), total, fees))
 }
 
 func driveSettleApp(t *testing.T, rng *RNG, n int, out *Out) {
@@ -597,6 +796,9 @@ func driveSettleApp(t *testing.T, rng *RNG, n int, out *Out) {
 			g.out.Emit(op, e.exec(op))
 		}
 		g.out.Emit("dump", e.exec("dump"))
+		if rng.Chance(60) {
+			g.resting()
+		}
 		rounds := 1 + rng.Intn(3)
 		for i := 0; i < rounds; i++ {
 			g.round()
